@@ -52,9 +52,17 @@ def gen_file(rng, tier):
         name, atoms = kinds[k]
         for an in atoms:
             x, y, z = (round(rng.uniform(-5, 30), 3) for _ in range(3))
+            if rng.random() < 0.04:
+                x, y, z = 0.0, 0.0, 0.0                    # an atom exactly at the origin
             l = "%5d%-5s%5s%5d%8.3f%8.3f%8.3f" % (resid % 100000, name, an, atomid % 100000, x, y, z)
             if vel:
-                l += "%8.4f%8.4f%8.4f" % tuple(round(rng.uniform(-3, 3), 4) for _ in range(3))
+                v = tuple(round(rng.uniform(-3, 3), 4) for _ in range(3))
+                c = rng.random()
+                if c < 0.06:
+                    v = (0.0, 0.0, 0.0)                     # an atom at rest (frozen group, freshly inserted ion)
+                elif c < 0.1:
+                    v = (0.0, v[1], 0.0)
+                l += "%8.4f%8.4f%8.4f" % v
             lines.append(l)
             atomid += 1
         c = rng.random()
